@@ -333,8 +333,56 @@ func smallPlainKey(es []yentry) bool {
 	return false
 }
 
-func knownSmallKey(err error, es []yentry) bool {
-	return err != nil && strings.Contains(err.Error(), "is not convertible to TXTPublicKey") && smallPlainKey(es)
+// the known finding C16-yaml-small-public-key is recognised by the INPUT, never by the text of
+// an error: the document holds a key with 24 leading zero bytes as a plain 0x scalar, it is
+// refused, and the same document without that entry parses to the rest of the collection (so
+// nothing else is wrong with it)
+func isSmallPlainKeyEntry(e yentry) bool { return smallPlainKey([]yentry{e}) }
+
+func knownSmallKey(err error, es []yentry, want registers.Registers) bool {
+	if err == nil || !smallPlainKey(es) {
+		return false
+	}
+	var rest []yentry
+	for _, e := range es {
+		if !isSmallPlainKeyEntry(e) {
+			rest = append(rest, e)
+		}
+	}
+	var wantRest registers.Registers
+	for _, r := range want {
+		if r.ID() != registers.TXTPublicKeyRegisterID {
+			wantRest = append(wantRest, r)
+		}
+	}
+	var out registers.Registers
+	var perr error
+	panicked, _ := gal.Recover(func() { perr = yaml.Unmarshal([]byte(docText(rest)), &out) })
+	return !panicked && perr == nil && !hasNil(out) && sameSet(wantRest, out) == ""
+}
+
+// the same for a collection sent through yaml.Marshal / yaml.Unmarshal: it holds a key whose
+// first 24 bytes are zero, and without such keys the round trip is the identity
+func knownSmallKeyRoundTrip(regs registers.Registers) bool {
+	if !smallKey(regs) {
+		return false
+	}
+	var rest registers.Registers
+	for _, r := range regs {
+		if !smallKey(registers.Registers{r}) {
+			rest = append(rest, r)
+		}
+	}
+	var out registers.Registers
+	var err error
+	panicked, _ := gal.Recover(func() {
+		var b []byte
+		b, err = yaml.Marshal(rest)
+		if err == nil {
+			err = yaml.Unmarshal(b, &out)
+		}
+	})
+	return !panicked && err == nil && !hasNil(out) && sameSet(rest, out) == ""
 }
 
 func randRegs(c *gal.Ctx, k int) registers.Registers {
@@ -354,7 +402,7 @@ func judge(c *gal.Ctx, idx int, what string, want registers.Registers, must bool
 	switch {
 	case panicked:
 		c.OracleFail(idx, what+" panics: "+msg, site, d)
-	case err != nil && es != nil && knownSmallKey(err, es):
+	case err != nil && es != nil && knownSmallKey(err, es, want):
 		c.OracleFailKnown(idx, "C16-yaml-small-public-key", what+": a TXT.PUBLIC.KEY whose first 24 bytes are zero, written as a plain 0x scalar, is rejected: "+err.Error(), "pkg/registers/registers.go:MarshalYAML / marshal_value.go:valueUnpack", d)
 	case err != nil && must:
 		c.OracleFail(idx, what+" fails: "+err.Error(), site, d)
